@@ -232,6 +232,10 @@ def arch_list(copy, Fd, H, tier):
         # random masks (feed-forward only)
         for mult in mults[:2]:
             yield {"F": Fd, "H": H, "blocks": blocks, "residual": False, "ctx": False, "mult": mult, "bn": False, "random": True}
+        # residual blocks with random masks: the library refuses to build them (a skip connection needs non-decreasing degrees);
+        # if a tree accepts the combination, the network it builds has to be autoregressive like any other
+        if blocks >= 1 and Fd >= 2:
+            yield {"F": Fd, "H": H, "blocks": blocks, "residual": True, "ctx": False, "mult": 1, "bn": False, "random": True}
 
 
 def run_arch(copy, a, tier, seed, res=None, only_choices=None):
@@ -262,7 +266,9 @@ def run_arch(copy, a, tier, seed, res=None, only_choices=None):
             for cell, sym, msg in vs:
                 vio.append({"key": "MADE[%s]|%s|%s" % (copy, cell, sym), "case": {"copy": copy, "arch": a, "choices": list(choices), "seed": seed}, "msg": "MADE(%s) %s randint answers %s: %s" % (copy, a, list(choices), msg)})
     except Exception as e:
-        if a["residual"] and a["random"]:
+        if a["residual"] and a["random"] and isinstance(e, (ValueError, AssertionError)):
+            if res is not None:
+                bump(res["outcomes"], "%s:residual+random:rejected by the constructor" % copy)
             return vio
         vio.append({"key": "MADE[%s]|construct|raises %s" % (copy, type(e).__name__), "case": {"copy": copy, "arch": a, "choices": [], "seed": seed}, "msg": "MADE(%s) %s: %s: %s" % (copy, a, type(e).__name__, str(e)[:120])})
     return vio
